@@ -52,7 +52,7 @@ func fieldRefOf(t types.Type, idx int) (FieldRef, bool) {
 	if n.Obj().Pkg() != nil {
 		pkg = n.Obj().Pkg().Name()
 	}
-	return FieldRef{Type: typeCanonName(n.Obj()), Pkg: pkg, Field: s.Field(idx).Name()}, true
+	return FieldRef{Type: typeCanonName(n.Obj()), Pkg: pkg, Field: embeddedCanon(s.Field(idx))}, true
 }
 
 // classify how the address produced by a FieldAddr is used: "r", "w" or "rw"/"escape".
